@@ -124,6 +124,9 @@ ArgsFor(op) ==
            {WithBody([A0 EXCEPT !.exp = e, !.casc = c, !.newc = nc, !.sets = s, !.json = (b = "J1")], b) :
                e \in {"0", "E1"}, c \in CasClasses, nc \in {"hi", "mid", "low", "btw", "far"}, s \in PlainSets \cup {NoSets},
                b \in {"J1", "R1", ""}}
+           \* the caller passes an xattr object without members
+           \cup {WithBody([A0 EXCEPT !.casc = c, !.newc = nc, !.opt = "emptyx", !.json = (b = "J1")], b) :
+                    c \in {"zero", "cur"}, nc \in {"hi", "mid"}, b \in {"J1", "R1", ""}}
       [] op = "DeleteWithMeta" ->
            {[A0 EXCEPT !.exp = e, !.casc = c, !.newc = nc, !.sets = s] :
                e \in {"0"}, c \in CasClasses, nc \in {"hi", "mid", "low", "btw", "far"}, s \in PlainSets \cup {NoSets}}
